@@ -229,14 +229,18 @@ VARIABLES s, re, n, hist
 \* hist: ghost history for the properties: [issued, completed (bag as sequence), terminal (per invocation), cbseq]
 vars == <<s, re, n, hist>>
 
-H0 == [completed |-> <<>>, terminals |-> <<>>, invoked |-> {}, cbs |-> <<>>, evs |-> <<>>, goodbyes |-> 0, lostAt |-> 0]
+H0 == [completed |-> <<>>, terminals |-> <<>>, invoked |-> {}, cbs |-> <<>>, evs |-> <<>>, goodbyes |-> 0, lostAt |-> 0, opens |-> 0]
 Init == s = S0 /\ re = NoRe /\ n = 0 /\ hist = H0
 
 Terminals(out) == SelectSeq(out, LAMBDA o : o.t \in {"yield", "error"} /\ ~o.progress)
+IsOpenStep(r) == Len(r.re.cbs) > 0 /\ r.re.cbs[1] = "onConnect"
 Apply(r) ==
   /\ n < MaxEvents /\ n' = n + 1
   /\ s' = r.s /\ re' = r.re
-  /\ hist' = [hist EXCEPT !.completed = @ \o [i \in 1..Len(r.re.done) |-> r.re.done[i].id],
+  \* (callbacks, listener events and GOODBYEs are counted per transport connection: a session object may be opened again)
+  /\ hist' = [[hist EXCEPT !.cbs = IF IsOpenStep(r) THEN <<>> ELSE @, !.evs = IF IsOpenStep(r) THEN <<>> ELSE @,
+                            !.goodbyes = IF IsOpenStep(r) THEN 0 ELSE @, !.opens = IF IsOpenStep(r) THEN @ + 1 ELSE @]
+               EXCEPT !.completed = @ \o [i \in 1..Len(r.re.done) |-> r.re.done[i].id],
                           !.terminals = @ \o [i \in 1..Len(Terminals(r.re.out)) |-> Terminals(r.re.out)[i].req],
                           !.invoked = @ \cup {r.re.ecalls[i].req : i \in 1..Len(r.re.ecalls)},
                           !.cbs = @ \o r.re.cbs, !.evs = @ \o r.re.evs,
@@ -257,7 +261,7 @@ RouterMsgs ==
   \cup {[t |-> "interrupt", req |-> r] : r \in 1..MaxReq}
 
 Next ==
-  \/ ~s.tr /\ ~s.hello /\ Apply(Open(s))
+  \/ ~s.tr /\ hist.opens < 2 /\ Apply(Open(s))             \* (a second transport connection for the same session object)
   \/ s.tr /\ \E m \in RouterMsgs :
         \* (a router following the session state machine sends WELCOME at most once per connection)
         /\ m.t = "welcome" => Count(hist.cbs, "onJoin") = 0
